@@ -198,6 +198,71 @@ pub fn schedule_part(run: &Run) -> Out {
         let cfg = Config { workers: 2, choose_items: true, max_decisions: 10_000, min_items: 2, count_task_switches: false };
         explore_case(run, &format!("{key}:W2"), &cfg, None, body, &seq, json!({"m": mr.show(), "r": r}), &tot);
     });
+    // ---- wide Schur complements: >= 64 columns outside the pivot block --------------------------------
+    // (a column loop that is chunked or forks only above a minimum length hands a worker whole ranges
+    // of columns; with work stealing a worker may process a higher range before a lower one, which
+    // matters as soon as per-thread scratch state is kept between columns - seed
+    // `C12-schur-stamp-assumes-increasing-columns`.)  M = [[A, B], [C, D]], A = I_r, every
+    // combination of the patterns below; W = 2, item choice; every hand-over and every out-of-order
+    // item is a deviation, bound 1 (thorough 2).
+    {
+        let mut wcases: Vec<(RMat<Q>, usize)> = vec![];
+        let widths: &[usize] = if th { &[64, 65, 96] } else { &[64, 65] };
+        for &nc in widths {
+            for r in [1usize, 2] {
+                for mp in [1usize, 2] {
+                    for bpat in 0..3usize {
+                        for dpat in 0..3usize {
+                            let m = RMat::from_fn(r + mp, r + nc, |i, j| {
+                                let one = Q::int(1);
+                                let zero = Q::int(0);
+                                if i < r && j < r {
+                                    if i == j { one } else { zero }
+                                } else if i < r {
+                                    // B
+                                    let jj = j - r;
+                                    match bpat { 0 => one, 1 => if (jj + i) % 2 == 0 { one } else { zero }, _ => if jj % 5 == 0 { zero } else { Q::int(2) } }
+                                } else if j < r {
+                                    // C
+                                    if (i - r + j) % 2 == 0 || mp == 1 { one } else { Q::new(z(1), z(2)) }
+                                } else {
+                                    // D
+                                    let (ii, jj) = (i - r, j - r);
+                                    match dpat { 0 => zero, 1 => if (ii + jj) % 3 == 0 { one } else { zero }, _ => one }
+                                }
+                            });
+                            wcases.push((m, r));
+                        }
+                    }
+                }
+            }
+        }
+        run.add("c12_wide_schur_cases", wcases.len() as u64);
+        run.par_for(wcases.len(), |ci| {
+            if run.over_budget_frac(0.9) {
+                run.cap("C12 schedules: wall budget reached (wide schur)");
+                return;
+            }
+            let (mr, r) = &wcases[ci];
+            let m: SpMat<Ratio<i64>> = to_spmat::<Ratio<i64>>(mr);
+            let body = || {
+                let s = Schur::from_partial_triangular(TriangularType::Upper, &m, *r, false);
+                from_spmat(&s.disassemble().0)
+            };
+            // exact value from the reference: S = D - C A^-1 B with A = I
+            let (mrows, ncols) = (mr.m - r, mr.n - r);
+            let expected = RMat::from_fn(mrows, ncols, |i, j| {
+                let mut v = mr.at(r + i, r + j).clone();
+                for k in 0..*r {
+                    v = v.sub(&mr.at(r + i, k).mul(mr.at(k, r + j)));
+                }
+                v
+            });
+            let key = format!("spsched:schur-wide:{}x{}:r{}:case{}", mr.m, mr.n, r, ci);
+            let cfg = Config { workers: 2, choose_items: true, max_decisions: 100_000, min_items: 2, count_task_switches: true };
+            explore_case(run, &key, &cfg, Some(if th { 2 } else { 1 }), body, &expected, json!({"m": mr.show(), "r": r}), &tot);
+        });
+    }
     // ---- dir_sum_decomp: the union-find race ------------------------------------------------------
     let mut dcases: Vec<RMat<Z>> = vec![];
     for code in 0..(1u32 << 12) {
@@ -333,6 +398,7 @@ pub fn schedule_part(run: &Run) -> Out {
         points: g.1,
         json: json!({"cases": g.2, "executions": g.0, "lock_points_passed": g.1, "scheduled_parallel_calls": g.3,
                      "solve_cases": cases.len(), "schur_cases": scases.len(), "decomp_cases": dcases.len(),
-                     "workers": "solve: 1,2,3 with item choice (all assignments and per-worker orders); schur: 2 with item choice; decomp: 2, preemption bound 2 (thorough 3)"}),
+                     "wide_schur_cases": run.get("c12_wide_schur_cases"),
+                     "workers": "solve: 1,2,3 with item choice (all assignments and per-worker orders); schur: 2 with item choice; wide schur (64-96 columns): 2 with item choice, deviations (hand-overs + out-of-order items) <= 1 (thorough 2); decomp: 2, preemption bound 2 (thorough 3)"}),
     }
 }
